@@ -144,6 +144,15 @@ func suiteC20(c *ctx) {
 		case k == 12: // no password available
 			opts = []string{"nopw", "use_first_pass", "nopw,try_first_pass", "use_first_pass,debug"}[r.Intn(4)]
 			script = "N"
+		case k == 14:
+			// replies at and beyond the 256-byte clip without any NUL byte, with the option sets that
+			// log the reply text (debug): the module's buffer must stay terminated for %s
+			body := append([]byte([]string{"NO ", "NO", "no", "OK ", "xx", ""}[r.Intn(6)]), bytes.Repeat([]byte{byte(0x41 + r.Intn(26))}, r.Pick(252, 253, 254, 255, 256, 257, 258, 300, 1000, 4000))...)
+			ann := r.Pick(len(body), len(body), 256, 257, 258, 65535)
+			ann = min(ann, 65535)
+			rep = append([]byte{byte(ann >> 8), byte(ann)}, body[:min(len(body), ann)]...)
+			opts = []string{"debug", "debug,not_set_pass", "stackpw,try_first_pass,debug", "-"}[r.Intn(4)]
+			script = fmt.Sprintf("R%d;W%x;C", rl, rep)
 		case k == 13: // delay inside the timeout before the reply
 			script = fmt.Sprintf("R%d;S%d;W%x;C", rl, 100+r.Intn(300), rep)
 		default:
